@@ -346,6 +346,11 @@ func (rrs *RawRecordSet) WriteTo(w io.Writer) (int64, error) {
 }
 
 func makeTime(t int64) time.Time {
+	if t <= 0 {
+		// No timestamp (-1, or the zero that timestamp writes for the zero
+		// time): the zero time, like the Conn and Reader report it.
+		return time.Time{}
+	}
 	return time.Unix(t/1000, (t%1000)*int64(time.Millisecond))
 }
 
